@@ -437,13 +437,16 @@ func c05Run(c *gen.Ctx, in c05In) c05Out {
 		_, err := cc.Run(flags, &c02Printer{}, &c02Printer{})
 		done <- err
 	}()
+	// the watchdog counts ticks this process has received, not wall-clock time (see cc.VerifDog)
+	dog := cc.VerifNewDog(timeout)
+	defer dog.Stop()
 	select {
 	case runErr = <-done:
 		out.Returned = true
 		// "every started server is stopped, and the run terminates": at the very moment Run returns,
 		// none of the server processes it started may still be running
 		out.AliveAtReturn = c05AliveServers(dir)
-	case <-time.After(time.Duration(timeout) * time.Second):
+	case <-dog.C:
 		out.AliveAtReturn = []int{}
 		// Run hangs: its goroutines are lost, its peers must not stay behind
 		c05KillScenario(dir)
